@@ -128,6 +128,9 @@ package util
 //@   ensures {C11,C09} forall(i, 0, len(removed), removed[i] != nil && reMatchString(pattern, removed[i].Text))
 //@   ensures {C11,C09} removed == nil || fresh(removed)
 //@   ensures {C11} wfGroup(commentGroup)
+//@   ensures {C11,C09} (removed == nil) == !old(anyMatch(commentGroup, pattern)) && (removed != nil ==> len(removed) > 0)
+//@   loop 1 invariant (removed == nil) == forall(i, 0, $k, !reMatchString(pattern, old(commentGroup.List)[i].Text))
+//@   loop 1 invariant removed != nil ==> len(removed) > 0
 //@   loop 1 invariant $k <= len(old(commentGroup.List)) && commentGroup.List == old(commentGroup.List) && sameOld(removed)
 //@   loop 1 invariant (removed == nil || fresh(removed)) && forall(i, 0, len(removed), removed[i] != nil && reMatchString(pattern, removed[i].Text))
 //@   loop 1 invariant (modified == nil || fresh(modified)) && forall(i, 0, len(modified), modified[i] != nil) && disjoint(modified, removed)
